@@ -171,11 +171,13 @@ def judge_default(ctx, inst, S):
             lanecheck.MASK_LANES[0] = (ctx.retrep[1], vt.n)
         elif ctx.retrep[0] == "k":
             lanecheck.MASK_LANES[0] = (1, vt.n)
+    lanecheck.FP_SWEEP[0] = bool(vt.is_float)
     try:
         v, detail, wit = lanecheck.compare(actual, expected, S, argspecs, ctx.names, lane_bits, inst.pure,
                                            env_ok=getattr(inst, "env_ok", None))
     finally:
         lanecheck.MASK_LANES[0] = None
+        lanecheck.FP_SWEEP[0] = False
     rule = "normal form of %s == %s" % (inst.op, T.show(expected, 3, ctx.names))
     if v == UNDECIDED and actual is not None:
         # alternative closed forms of the same specification (each with its derivation in spec/ops.py):
@@ -282,6 +284,9 @@ def analyse_job(job):
         named = job.get("named", [])
     ops.TIER = job.get("tier", "quick")
     prop = job.get("prop")
+    # masks are vectors of booleans: their operations must not depend on the floating-point environment, so
+    # C03 also evaluates closed forms that contain float compares with MXCSR.DAZ set
+    lanecheck.DAZ_MODE[0] = (prop == "C03")
     insts = ops.FAMILIES[job["fam"]](vt, _C)
     if prop:
         insts = [i for i in insts if not hasattr(i, "judges") or prop in i.judges]
